@@ -174,6 +174,7 @@ func (s *Solver) Check(asserts []*Term, timeoutMs int, wantModel bool) QueryResu
 		}
 	case <-time.After(time.Duration(timeoutMs+15000) * time.Millisecond):
 		s.cmd.Process.Kill()
+		go s.cmd.Wait()
 		s.dead = true
 		res.Status = "unknown"
 		res.Detail = "hard timeout; solver killed"
